@@ -233,7 +233,7 @@ func startStandby(endpoint string, store ha.SessionStore) *ha.HASyncer {
 func TestPropLinkGate(t *testing.T) {
 	base := goroutineBaseline()
 	defer failIfInconclusive(t)
-	vstat.Checks(200, 6000)
+	checks(200, 6000)
 	rapid.Check(t, func(rt *rapid.T) {
 		skipIfInconclusive(rt)
 		runLinkCase(rt, genLinkCase().Draw(rt, "case"))
